@@ -137,9 +137,10 @@ def pref(case):
         c = _Hashable()
         c.style, c.c_min, c.c_max = style_of(d), content(d), content(d)
         columns.append(c)
-    if case['group'] is not None and columns:
+    if columns:
+        gd = case['group'] if case['group'] is not None else 'auto'
         g = _Hashable()
-        g.style, g.c_min, g.c_max = style_of(case['group']), content(case['group']), content(case['group'])
+        g.style, g.c_min, g.c_max = style_of(gd), content(gd), content(gd)
         g.children = columns
         table.column_groups = (g,)
     else:
